@@ -119,6 +119,7 @@ def run(repo='/repo', tier='quick'):
     c13f(db, res)
     c13g(db, res)
     c13h(db, res)
+    c13i(db, res)
     return res
 
 
@@ -376,3 +377,24 @@ def c13h(db, res):
                 res.check(name in URI_WRITERS, 'C13.h', '%s:writes:htp_uri_t.%s' % (name, fld), URI_WRITERS.get(name, ''),
                           '%s stores into the %s component of a URI structure: a component that does not come from the request target is reported as part of it (a port taken from the Host field, say, for a target without a port)' % (name, fld), a['loc'])
     res.floor('C13.h', 'stores to URI components', n, 10)
+
+
+def c13i(db, res):
+    """The authority ends at the first "/", "?" or "#" after "//"; its delimiters ("@", ":", "]") are looked for inside it. A
+    search for one of them that runs to the end of the target finds an "@" of the path or query and moves the host there:
+    `http://evil.example/?next=@www.example.com` is then reported with host www.example.com."""
+    res.rule('C13.i', 'authority delimiters are searched inside the authority: in htp_parse_uri no memchr window reaches to the end of the target (its length, as a linear form, does not contain the length parameter)')
+    f = db.get('htp_parse_uri')
+    lenp = None
+    for b, i, c in f.calls('memchr'):
+        pass
+    # the length of the target: bstr_len(input) bound to a local
+    lens = {v['name'] for b, i, st in f.stmts() for d in nodes(st, lambda y: y.get('k') == 'decl') for v in d['vars'] if v.get('init') is not None and 'len' in P.K(v['init']) and 'input' in P.K(v['init'])}
+    n = 0
+    for b, i, c in f.calls('memchr'):
+        n += 1
+        used = {strip(v)['name'] for v in nodes(c['args'][2], lambda y: y.get('k') == 'var')}
+        bad = used & lens
+        res.check(not bad, 'C13.i', 'htp_parse_uri:memchr(%s):window' % P.K(c['args'][1]), 'the window ends inside the authority',
+                  'htp_parse_uri searches for %s in a window of length %s, i.e. up to the end of the target: a delimiter character in the path or query is taken for an authority delimiter and the reported host is not the host of the target' % (P.K(c['args'][1]), P.K(c['args'][2])), c['loc'])
+    res.floor('C13.i', 'delimiter searches in htp_parse_uri', n, 4)
